@@ -308,8 +308,9 @@ class C05(Monitor):
                 problems.append("initial supply %d != isqrt(d0*d1) = %d" % (S2, isqrt(d[0] * d[1])))
             add((p.lp, p.lp), 1)
             add((receiver, p.lp), S2 - 1)
-            if post.get(p.lp, p.lp) != 1:
-                problems.append("reserved unit: LP token address holds %d of itself" % post.get(p.lp, p.lp))
+            want_self = 1 + (S2 - 1 if receiver == p.lp else 0)   # the caller may designate the LP token itself as receiver
+            if post.get(p.lp, p.lp) != want_self:
+                problems.append("reserved unit: LP token address holds %d of itself, expected %d" % (post.get(p.lp, p.lp), want_self))
         got = dict((k, v[1] - v[0]) for k, v in pre.diff(post).items())
         if got != exp:
             problems.append("ledger delta %s differs from declared %s" % (
@@ -384,7 +385,7 @@ class C07(Monitor):
                         problems.append("LP supply of %s changed on a failed operation" % p.addr)
                     elif kind in ("provide", "provide_malformed") and sem["pair"] is p and ds > 0:
                         rcv = sem["receiver"] or actor
-                        minted = (post.get(rcv, t) - pre.get(rcv, t)) + (post.get(t, t) - pre.get(t, t))
+                        minted = (post.get(rcv, t) - pre.get(rcv, t)) + ((post.get(t, t) - pre.get(t, t)) if rcv != t else 0)
                         if ds != minted:
                             problems.append("LP supply +%d but minted %d" % (ds, minted))
                     elif kind == "withdraw" and sem["pair"] is p and ds == -sem["amount"]:
@@ -622,7 +623,7 @@ class Router(Monitor):
         sem = op["sem"]
         hops = sem["hops"]
         actor = op["actor"]
-        rcp = sem["to"] or actor
+        rcp = actor if sem["to"] is None else sem["to"]      # (an empty string is a given, invalid, recipient)
         amount = sem["amount"]
         entry = sem["entry_asset"]
         pre, post = st.pre, st.post
@@ -740,6 +741,8 @@ class Router(Monitor):
             return "noquote"
         if special_rcp or rcp in w.t_contracts:
             return "recipient"
+        if rcp not in w.t_accounts:
+            return "invalid_recipient"
         if any(st.pre.get(w.router, a[1]) != 0 for h in hops for a in h):
             return "router_dirty"
         if amount <= 0 or st.pre.get(actor, entry[1]) < amount:
